@@ -950,6 +950,71 @@ fn coverage_grid() -> (u64, u64, u64, Vec<Violation>) {
     (jobs.len() as u64, accepted, runs, out)
 }
 
+/// A construct that is the *only* statement of a branch: nested control flow with nothing else
+/// around it (conditions carry the effects), every pairing of an outer `if` / `if-else` with an
+/// inner construct as the sole content of its then- or else-branch, every kind of else branch
+/// (valued, a `()` procedure call, a block, a loop), every truth assignment. Oracle: a neutral
+/// statement (a call of an empty procedure) put in front of the inner construct changes nothing - and the log is the one
+/// the conditions prescribe (outer first; inner only on the branch taken).
+fn sole_statement_grid() -> (u64, Vec<Violation>) {
+    const INNERS: &[(&str, &str)] = &[
+        ("if", "if t(2, b) { X }"),
+        ("if-else", "if t(2, b) { X } else { Z }"),
+        ("if-set", "if q: bool = t(2, b) { if q { X } }"),
+        ("match", "match t(2, b) { true => { X }, => { }, }"),
+        ("while", "while t(2, b) { X; break }"),
+        ("for", "for e in [t(2, b)]~ { if e { X } }"),
+        ("block", "{ if t(2, b) { X } }"),
+        ("value if", "r := if t(2, b) { 1 } else { 2 }; w(40 + r)"),
+    ];
+    const OUTERS: &[(&str, &str)] = &[
+        ("then of if-else", "if t(1, a) { NOP INNER } else { Y }"),
+        ("then of if", "if t(1, a) { NOP INNER }"),
+        ("else of if-else", "if t(1, a) { Y } else { NOP INNER }"),
+        ("else-if", "if t(1, a) { Y } else INNER_AS_ELSE_IF"),
+        ("then of if-else in a loop", "for round in [0, 0]~ { if t(1, a) { NOP INNER } else { Y } }"),
+        ("arm of a match", "match t(1, a) { true => { NOP INNER }, => { Y }, }"),
+        ("then of if-set-else", "if q1: bool = t(1, a) { NOP INNER } else { Y }"),
+        ("both branches", "if t(1, a) { NOP INNER } else { NOP INNER }"),
+    ];
+    const YS: &[(&str, &str)] = &[("valued statement", "log += [30]"), ("procedure call", "w(30)"), ("block", "{ w(30) }"), ("loop", "loop { w(30); break }"), ("empty", "")];
+    const PRELUDE: &str = "t := (i: int, v: bool) -> bool { log += [i]; return v }; w := (i: int) -> () { log += [i] }; nothing := () -> () { };";
+    let mut out = Vec::new();
+    let mut n = 0u64;
+    for (oname, otext) in OUTERS {
+        for (iname, itext) in INNERS {
+            for (yname, ytext) in YS {
+                if *oname == "else-if" && !itext.starts_with("if ") {
+                    continue;
+                }
+                let build = |nop: &str| {
+                    let body = otext.replace("INNER_AS_ELSE_IF", itext).replace("INNER", itext).replace("NOP", nop).replace('X', "w(10)").replace('Z', "w(20)").replace('Y', ytext);
+                    format!("f := (a: bool, b: bool) -> any {{ log := mut [int] []; {PRELUDE} {body}; return *log }}")
+                };
+                // (a constant statement would be dropped by the folder: the padding is a call)
+                let (plain, padded) = (build(""), build("nothing();"));
+                for (a, b) in [(true, true), (true, false), (false, true), (false, false)] {
+                    n += 1;
+                    let run = |text: &str| match core::run_text(&format!("{text}; f({a}, {b})"), true, core::QUICK_FUEL) {
+                        core::Outcome::Value(v) => canon(&v),
+                        other => other.tag(),
+                    };
+                    let (gp, gq) = (run(&plain), run(&padded));
+                    // the outer condition is evaluated first, exactly once per round
+                    let starts_right = gq.starts_with("[1") || gq.starts_with("rejected");
+                    if gp != gq || !starts_right {
+                        out.push(Violation {
+                            sig: format!("C12|sole-statement|outer={oname}|inner={iname}|other-branch={yname}|a={a}|b={b}"),
+                            detail: json!({"kind": "program", "stdlib": true, "text": format!("{plain}; f({a}, {b})"), "the same with a neutral statement in front of the inner construct": format!("{padded}; f({a}, {b})"), "expected": gq, "observed": gp}),
+                        });
+                    }
+                }
+            }
+        }
+    }
+    (n, out)
+}
+
 /// A failing operation on values captured by a function value fails when it is reached and
 /// only then: creating the function value evaluates nothing of its body (so a branch that is not
 /// chosen, or a function that is never called, cannot make the program fail), and reaching the
@@ -1317,6 +1382,8 @@ pub fn run(tier: &str) -> i32 {
     report.violations(arm_order.2);
     let coverage_matches = core::on_big_stack(coverage_grid);
     report.violations(coverage_matches.3);
+    let sole = core::on_big_stack(sole_statement_grid);
+    report.violations(sole.1);
     let binder_names = core::on_big_stack(binder_names_grid);
     assert!(binder_names.1 * 2 > binder_names.0, "binder-name grid: most pairs must run ({} of {})", binder_names.1, binder_names.0);
     report.violations(binder_names.2);
@@ -1333,6 +1400,7 @@ pub fn run(tier: &str) -> i32 {
         "programs": programs,
         "runs": runs,
         "constant_twins_the_checker_rejected": rejected_constant_twins,
+        "sole_statement_cases (8 outer positions x 8 inner constructs x 5 other branches x 4 truth assignments; bare vs padded with a neutral statement)": sole.0,
         "match_coverage (sets of 1..3 type arms over 23 arm types x 11 scrutinee types, no catch-all)": {"matches": coverage_matches.0, "accepted_by_the_checker": coverage_matches.1, "runs_on_values_of_the_scrutinee_type": coverage_matches.2},
         "binder_name_pairs (19 binding forms x 12 outside meanings x 5 scrutinees; binder named like the outside name vs fresh)": binder_names.0,
         "binder_name_pairs_in_which_both_programs_ran": binder_names.1,
